@@ -4,19 +4,19 @@
 (* enumerated room state and every order in which the writer may visit the *)
 (* players (Go map iteration), the frame denotes the state it was written  *)
 (* from - as long as the state is InDomain.  MaxLen is the longest id /    *)
-(* name / object list enumerated, Crowd the size of one extra state with   *)
-(* many players.  With MaxLen = 255, Crowd = 255 both invariants hold;     *)
-(* with 256 `Faithful` fails (a length byte wraps): the hub must keep its  *)
-(* state inside the domain, which is what X02.Representable demands of the *)
-(* real code.                                                              *)
+(* name / object list enumerated (lengths 0, Mid, MaxLen), Crowd the size  *)
+(* of one extra state with many players.  With MaxLen = 255, Crowd = 255   *)
+(* both invariants hold; with 256 `Faithful` fails (a length byte wraps):  *)
+(* the hub must keep its state inside the domain, which is what            *)
+(* X02.Representable demands of the real code.                             *)
 (***************************************************************************)
 EXTENDS RoomWire, SequencesExt
 
-CONSTANTS MaxLen, Crowd
+CONSTANTS MaxLen, Crowd, Mid      \* Mid: the lengths enumerated between 0 and MaxLen
 
 Str(n, v) == [i \in 1..n |-> (v + 7 * i) % 256]
 Obj(v) == [i \in 1..ObjSize |-> (v * i + 3) % 256]
-Lens == {0, 1, 2, MaxLen}
+Lens == {0, MaxLen} \cup Mid
 Ids == {Str(n, 65) : n \in Lens}
 PlayerVals == {[name |-> Str(nl, 97), rep |-> [i \in 1..nr |-> Obj(i)]] : nl \in Lens, nr \in Lens}
 Scene0 == [i \in 1..SceneSize |-> IF i <= 3 THEN i % 2 ELSE (11 * i) % 256]
